@@ -4,6 +4,8 @@ Driver for the lexer/parser model and the reference reader (C02, C16).
   parse <file hex> <text hex>        impl model `Goyang.Model.Parse.parseText`
   spec.parse <file hex> <text hex>   reference reader `Goyang.Spec.Parse.parse`
   spec.pos <text hex> <byte offset>  `line col` of the character starting at that byte, from the text alone
+  spec.marks <text hex>              what an error line may point at (`Goyang.Spec.Parse.marks`):
+                                     space separated <kind><line>:<col>, kind ∈ t b e q d c
 
 Answers (one line, the same serialisation for both readers):
 
@@ -106,6 +108,15 @@ def handle : List String → String
       | some cs, some pre => s!"{Spec.Parse.lineOf cs pre.length} {Spec.Parse.colOf cs pre.length}"
       | _, _ => "illformed"
     | _, _ => "bad-op"
+  | ["spec.marks", t] =>
+    match decBytes t with
+    | some t =>
+      match decodeText t with
+      | some cs =>
+        let ms := Spec.Parse.marks cs.length (cs.length + 1) cs
+        String.intercalate " " (ms.map fun (k, o) => s!"{k}{Spec.Parse.lineOf cs o}:{Spec.Parse.colOf cs o}")
+      | none => "illformed"
+    | none => "bad-op"
   | _ => "bad-op"
 
 def main : IO Unit := Proto.loop handle
